@@ -11,9 +11,9 @@ func init() {
 	register(&Property{
 		ID:         "C01",
 		Level:      "proof",
-		Technique:  "GF(2)-affine bit-level abstract interpretation of the loop-free wire primitives (exact for all 64-bit inputs) + value-set evaluation of the size closed forms over the complete log2 domain (static)",
-		Explain:    "For the integer wire primitives the abstract domain (each bit an affine form over the input bits, refined by the `v < 2^k` path conditions) is exact, so the following hold for every 64-bit input, not for a sample: (1) for each of AppendVarint's ten cases the emitted bytes drive ConsumeVarint down a single path that returns exactly the input value and the emitted length; case k emits k bytes under thresholds 2^(7k), so the encoding is the shortest one; (2) SizeVarint equals the emitted length for every magnitude class (value-set evaluation over log2 = 0..63), and SizeTag equals the length AppendTag emits for every valid field number and wire type; (3) Fixed32/Fixed64 append/consume are mutually inverse and consume their full width; (4) ZigZag encode/decode are mutually inverse bijections on 64 bits; (5) EncodeTag/DecodeTag are mutually inverse on field numbers 1..2^29-1 and wire types 0..7.",
-		NotCovered: "AppendBytes/ConsumeBytes/AppendString and the group helpers (byte-sequence functions with runtime lengths; their length handling is checked under C02), DecodeBool/EncodeBool, and ConsumeGroup's stripping of non-minimal end tags.",
+		Technique:  "GF(2)-affine bit-level abstract interpretation of the loop-free wire primitives (exact for all 64-bit inputs) + value-set evaluation of the size closed forms over the complete log2 domain; shape and linear-form rules for the length-prefixed byte strings (static)",
+		Explain:    "For the integer wire primitives the abstract domain (each bit an affine form over the input bits, refined by the `v < 2^k` path conditions) is exact, so the following hold for every 64-bit input, not for a sample: (1) for each of AppendVarint's ten cases the emitted bytes drive ConsumeVarint down a single path that returns exactly the input value and the emitted length; case k emits k bytes under thresholds 2^(7k), so the encoding is the shortest one; (2) SizeVarint equals the emitted length for every magnitude class (value-set evaluation over log2 = 0..63), and SizeTag equals the length AppendTag emits for every valid field number and wire type; (3) Fixed32/Fixed64 append/consume are mutually inverse and consume their full width; (4) ZigZag encode/decode are mutually inverse bijections on 64 bits; (5) EncodeTag/DecodeTag are mutually inverse on field numbers 1..2^29-1 and wire types 0..7. Byte strings: every return of AppendBytes/AppendString is varint(len(v)) followed by v (a one-byte prefix only under a guard implying len(v) < 0x80), SizeBytes(n) is SizeVarint(n)+n, a varint length prefix followed by raw appends declares the sum of the appended lengths (linear forms), and consumeFieldValueD's depth parameter is a per-level budget (never assigned, passed down decremented).",
+		NotCovered: "ConsumeBytes/ConsumeString (their length handling is checked under C02), DecodeBool/EncodeBool, and ConsumeGroup's stripping of non-minimal end tags.",
 		Trusted:    []string{"the transfer functions of the bit-level interpreter in /verif/checker/e2_bitaffine.go and Go's integer semantics as modelled there"},
 		Quick:      all("./encoding/protowire"),
 		Thorough:   all("./..."),
@@ -31,9 +31,9 @@ func init() {
 	register(&Property{
 		ID:         "C02",
 		Level:      "other",
-		Technique:  "bit-level abstract interpretation with length tracking (no overread, error codes per input length), CFG sign-test dominance on consumed lengths, call-graph recursion guard, range analysis of DecodeTag (static)",
-		Explain:    "Decides structural necessary conditions of `the wire field parser accepts exactly the wire grammar and never overreads`: (1) ConsumeVarint, ConsumeFixed32 and ConsumeFixed64 never index beyond the established length for any input length 0..11, return a positive count only after reading that many bytes, report truncation exactly when the input ends inside the value, and ConsumeVarint reports overflow for a tenth byte >= 2; (2) every length returned by a Consume* function inside protowire is sign-tested before it is used to slice; (3) the recursive group scanner consumeFieldValueD is cut by a depth test on every recursive edge; (4) DecodeTag returns a valid number only when the 61-bit field number fits in 31 bits (no silent wrap-around), and ConsumeTag rejects numbers below MinValidNumber.",
-		NotCovered: "acceptance of every well-formed nested group as a whole (the loop in consumeFieldValueD is decided per element only), ParseError's text, and ConsumeBytes' arithmetic on lengths near MaxInt.",
+		Technique:  "bit-level abstract interpretation with length tracking (no overread, error codes per input length), CFG sign-test dominance on consumed lengths, call-graph recursion guard, range analysis of DecodeTag; dominance of narrowing conversions by the unsigned bound test; exact-exit rule for ConsumeTag (static)",
+		Explain:    "Decides structural necessary conditions of `the wire field parser accepts exactly the wire grammar and never overreads`: (1) ConsumeVarint, ConsumeFixed32 and ConsumeFixed64 never index beyond the established length for any input length 0..11, return a positive count only after reading that many bytes, report truncation exactly when the input ends inside the value, and ConsumeVarint reports overflow for a tenth byte >= 2; (2) every length returned by a Consume* function inside protowire is sign-tested before it is used to slice; (3) the recursive group scanner consumeFieldValueD is cut by a depth test on every recursive edge; (4) DecodeTag returns a valid number only when the 61-bit field number fits in 31 bits (no silent wrap-around), and ConsumeTag rejects numbers below MinValidNumber. Further: a length decoded by ConsumeVarint is narrowed to int only after the unsigned bound test against the remaining input; ConsumeTag rejects for exactly two reasons (malformed varint, field number below 1); the recursion budget is per nesting level.",
+		NotCovered: "acceptance of every well-formed nested group as a whole (the loop in consumeFieldValueD is decided per element only) and ParseError's text.",
 		Quick:      all("./encoding/protowire"),
 		Thorough:   all("./..."),
 		Run: func(c *Ctx) {
